@@ -194,6 +194,10 @@ def checkStmt (w : Who) (F : Facts) (D : Decls) (e : SEnv) : Stmt → Option SEn
     (match recvStatic e r with
      | some (t, a) => if selLegal w F D t a m then some e else none
      | none => none)
+  | .mval x (.ifc i) m =>
+    (match slook e i with
+     | some (.ifc ity) => if (tyMethods D ity).any (fun k => k.name == m) then some ((x, .fn) :: e) else none
+     | _ => none)
   | .mval x r m =>
     (match recvStatic e r with
      | some (t, a) => if selLegal w F D t a m then some ((x, .fn) :: e) else none
@@ -268,7 +272,7 @@ inductive Clo where
   /-- method; `bound = true`: `inst` is the receiver bound when the method value was made;
       `bound = false` (interpreter before 3081633): `inst` is the storage of the (embedded) operand,
       read when the value is called, `srcPtr`: was the receiver operand a pointer -/
-  | meth (h : MHit) (inst : Inst) (srcPtr : Bool) (bound : Bool)
+  | meth (h : MHit) (inst : Inst) (srcPtr : Bool) (bound : Bool) (vi : Bool := false)
   | fld (owner : Nat) (name : String)  -- a func() field
   deriving Repr, Inhabited
 
@@ -334,18 +338,25 @@ def bindRecv (w : Who) (F : Facts) (D : Decls) (owner : Nat) (m : Meth) (srcPtr 
   | .go => copyInst D owner inst h
   | .yaegi => applyBind (valueArm F srcPtr) D owner inst h
 
+/-- the statement of the callback that fills the receiver slot. `vi`: the method was selected on the
+    value held by an interface (a `receiver` without node: `getMethodByName`, and since 32d4f06 the
+    wrappers `genInterfaceWrapper` makes for a conversion to a host interface); for those the callback
+    resolves the receiver itself at every call when `lateNilNode` holds -/
+def callSlot (F : Facts) (vi : Bool) : SlotBind :=
+  if vi && F.recvBind.lateNilNode then F.recvBind.lateCall else F.recvBind.call
+
 /-- second step, at every call: the receiver parameter of the new frame. Go: the bound value is
     passed by value; the interpreter: `d[numRet].Set(recv)` copies, `d[numRet] = recv` does not -/
-def enterRecv (w : Who) (F : Facts) (D : Decls) (owner : Nat) (m : Meth) (r0 : Inst) (h : Heap) : Inst × Heap :=
+def enterRecv (w : Who) (F : Facts) (D : Decls) (owner : Nat) (m : Meth) (vi : Bool) (r0 : Inst) (h : Heap) : Inst × Heap :=
   if m.ptr then (r0, h) else
   match w with
   | .go => copyInst D owner r0 h
-  | .yaegi => applyBind F.recvBind.call D owner r0 h
+  | .yaegi => applyBind (callSlot F vi) D owner r0 h
 
 /-- the storage the body of the method works on in a call, given the storage `inst` the operand
     designates: both steps -/
-def recvStorage (w : Who) (F : Facts) (D : Decls) (owner : Nat) (m : Meth) (srcPtr : Bool) (inst : Inst) (h : Heap) : Inst × Heap :=
-  enterRecv w F D owner m (bindRecv w F D owner m srcPtr inst h).1 (bindRecv w F D owner m srcPtr inst h).2
+def recvStorage (w : Who) (F : Facts) (D : Decls) (owner : Nat) (m : Meth) (srcPtr vi : Bool) (inst : Inst) (h : Heap) : Inst × Heap :=
+  enterRecv w F D owner m vi (bindRecv w F D owner m srcPtr inst h).1 (bindRecv w F D owner m srcPtr inst h).2
 
 /-- what a method body does to its receiver: a sequence of assignments to fields of the receiver
     (`r.p = v`, `r.p += d`; `p` an index path to an int field) -/
@@ -372,21 +383,21 @@ def runOn (D : Decls) (owner : Nat) (m : Meth) (r : Inst) (h1 : Heap) (s : St) :
   emit { s with heap := h2 } ((typeName D owner ++ "." ++ m.name) :: values r h2)
 
 /-- call a method value whose receiver `r0` was bound when it was made -/
-def runBound (w : Who) (F : Facts) (D : Decls) (owner : Nat) (m : Meth) (r0 : Inst) (s : St) : St :=
-  runOn D owner m (enterRecv w F D owner m r0 s.heap).1 (enterRecv w F D owner m r0 s.heap).2 s
+def runBound (w : Who) (F : Facts) (D : Decls) (owner : Nat) (m : Meth) (vi : Bool) (r0 : Inst) (s : St) : St :=
+  runOn D owner m (enterRecv w F D owner m vi r0 s.heap).1 (enterRecv w F D owner m vi r0 s.heap).2 s
 
 /-- run method `m` of type `owner`, the operand designating the storage `inst`; `srcPtr`: the
     receiver operand is a pointer -/
-def runMeth (w : Who) (F : Facts) (D : Decls) (owner : Nat) (m : Meth) (srcPtr : Bool) (inst : Inst) (s : St) : St :=
-  runOn D owner m (recvStorage w F D owner m srcPtr inst s.heap).1 (recvStorage w F D owner m srcPtr inst s.heap).2 s
+def runMeth (w : Who) (F : Facts) (D : Decls) (owner : Nat) (m : Meth) (srcPtr vi : Bool) (inst : Inst) (s : St) : St :=
+  runOn D owner m (recvStorage w F D owner m srcPtr vi inst s.heap).1 (recvStorage w F D owner m srcPtr vi inst s.heap).2 s
 
 /-- `t`, `opPtr`: struct type of the operand and whether the operand is a pointer to it -/
-def runHit (w : Who) (F : Facts) (D : Decls) (h : MHit) (t : Nat) (opPtr : Bool) (recv : Inst) (s : St) : St :=
-  runMeth w F D h.owner h.meth (srcIsPtr D t opPtr h.path) (subInst recv h.path) s
+def runHit (w : Who) (F : Facts) (D : Decls) (h : MHit) (t : Nat) (opPtr vi : Bool) (recv : Inst) (s : St) : St :=
+  runMeth w F D h.owner h.meth (srcIsPtr D t opPtr h.path) vi (subInst recv h.path) s
 
 def runSel (w : Who) (F : Facts) (D : Decls) (r : Sel) (t : Nat) (opPtr : Bool) (recv : Inst) (s : St) : St :=
   match r with
-  | .method h => runHit w F D h t opPtr recv s
+  | .method h => runHit w F D h t opPtr false recv s
   | .field fh => emit s [typeName D fh.owner ++ ".f." ++ fh.field.name]
   | _ => panic s
 
@@ -415,9 +426,9 @@ def dynCall (w : Who) (F : Facts) (D : Decls) (d : Option Dyn) (m : String) (isi
     (match w with
      | .yaegi =>
        (match lookupMethodY F D d.t m with
-        | some h => let s1 := runHit w F D h d.t d.ptr d.inst s; if isig == 1 && h.meth.sig == 0 then panic s1 else s1
+        | some h => let s1 := runHit w F D h d.t d.ptr true d.inst s; if isig == 1 && h.meth.sig == 0 then panic s1 else s1
         | none => panic s)
-     | .go => (match select D d.t m with | .method h => runHit w F D h d.t d.ptr d.inst s | _ => panic s))
+     | .go => (match select D d.t m with | .method h => runHit w F D h d.t d.ptr true d.inst s | _ => panic s))
 
 def sigOf (D : Decls) (ity : TyRef) (m : String) : Nat :=
   match (tyMethods D ity).find? (fun k => k.name == m) with
@@ -516,6 +527,30 @@ def execStmt (w : Who) (F : Facts) (D : Decls) (se : SEnv) (s : St) : Stmt → S
   | .call r m => (match recvInst D s r with
       | some (t, i, s1) => runSel w F D (sel w F D t m) t (recvIsPtr r) i s1
       | none => panic s)
+  | .mval x (.ifc i) m =>
+    -- `f := i.M`: Go binds the value held by the interface; a pointer in the path to the receiver is
+    -- dereferenced when `f` is called. The interpreter (`getMethodByName`: a receiver without node):
+    -- the same when such receivers are resolved in the callback (`lateNilNode`, since 32d4f06);
+    -- bound — a value receiver copied — when the method value is made between 3081633 and 32d4f06
+    (match look s i with
+     | some (.ifc (some d)) =>
+       let hit : Option MHit := match w with
+         | .yaegi => lookupMethodY F D d.t m
+         | .go => (match select D d.t m with | .method h => some h | _ => none)
+       -- the interpreter stores the wrapper in a slot of the interface method's type: a method whose
+       -- signature differs (accepted by the names-only `implements`) makes `f := i.M` fail on the spot
+       let isig := match slook se i with | some (.ifc ity) => sigOf D ity m | _ => 0
+       (match hit with
+        | some h =>
+          if w == .yaegi && isig != h.meth.sig then panic s else
+          let sub := subInst d.inst h.path
+          let sp := srcIsPtr D d.t d.ptr h.path
+          if w == .yaegi && F.recvBind.atCreation && !F.recvBind.lateNilNode then
+            let b := bindRecv w F D h.owner h.meth sp sub s.heap
+            bind { s with heap := b.2 } x (.fn (.meth ⟨h.owner, [], h.meth⟩ b.1 sp true true))
+          else bind s x (.fn (.meth ⟨h.owner, [], h.meth⟩ sub sp false true))
+        | none => panic s)
+     | _ => panic s)
   | .mval x r m => (match recvInst D s r with
       | some (t, i, s1) =>
         (match sel w F D t m with
@@ -531,8 +566,8 @@ def execStmt (w : Who) (F : Facts) (D : Decls) (se : SEnv) (s : St) : Stmt → S
          | _ => panic s1)
       | none => panic s)
   | .callf x => (match look s x with
-      | some (.fn (.meth h i sp bound)) =>
-        if bound then runBound w F D h.owner h.meth i s else runHit w F D h h.owner sp i s
+      | some (.fn (.meth h i sp bound vi)) =>
+        if bound then runBound w F D h.owner h.meth vi i s else runHit w F D h h.owner sp vi i s
       | some (.fn (.fld o n)) => emit s [typeName D o ++ ".f." ++ n]
       | _ => panic s)
   | .mexpr t isPtr m y => (match look s y with
@@ -541,8 +576,8 @@ def execStmt (w : Who) (F : Facts) (D : Decls) (se : SEnv) (s : St) : Stmt → S
          | .go =>
            (match select D t m with
             | .method h =>
-              if isPtr then runHit .go F D h t true i s
-              else let (c, hp) := copyInst D t i s.heap; runHit .go F D h t false c { s with heap := hp }
+              if isPtr then runHit .go F D h t true false i s
+              else let (c, hp) := copyInst D t i s.heap; runHit .go F D h t false false c { s with heap := hp }
             | _ => panic s)
          | .yaegi =>
            -- the receiver argument is passed as it is (an ordinary argument: `d[i].Set(arg)`, no
@@ -551,8 +586,8 @@ def execStmt (w : Who) (F : Facts) (D : Decls) (se : SEnv) (s : St) : Stmt → S
            (match selectY F D t m with
             | .method h =>
               if h.path.isEmpty && h.meth.ptr == isPtr then
-                (if isPtr then runHit .go F D h t true i s
-                 else let (c, hp) := copyInst D t i s.heap; runHit .go F D h t false c { s with heap := hp })
+                (if isPtr then runHit .go F D h t true false i s
+                 else let (c, hp) := copyInst D t i s.heap; runHit .go F D h t false false c { s with heap := hp })
               else panic s
             | _ => panic s))
       | _ => panic s)
